@@ -50,12 +50,14 @@ def main():
             res = {"demo_passes_clean": None, "demo_fails_patched": None, "suite_passes_with_patch": None}
             ok, out1 = demo_passes(cmd)
             res["demo_passes_clean"] = ok
+            sh("git clean -fdq", cwd=wt)
             rc, out = sh("git apply " + patch, cwd=wt)
             if rc != 0:
                 print(pid, n, "patch does not apply", out)
                 continue
             ok2, out2 = demo_passes(cmd)
             res["demo_fails_patched"] = not ok2
+            sh("git clean -fdq", cwd=wt)  # a demo file left in the tree must not take part in the suite
             rc, outb = sh("go1.26 build ./... 2>&1 | grep -v 'viewer-tests\\|movie.mp4'", cwd=wt)
             rc, outs = sh("go1.26 test -vet=off -count=1 ./... 2>&1 | grep -v '^ok\\|no test files'", cwd=wt, timeout=3000)
             bad = [l for l in outs.split("\n") if (re.match(r"(FAIL\s+\S+|--- FAIL|panic:)", l) or "[build failed]" in l)
